@@ -409,10 +409,17 @@ func CheckStreams(o *Outcome) []Viol {
 			}
 			// blocked although the next expected event was already in the oplog it read last
 			slot := slotOf(r.Actor, r.Op)
+			// position of the consumer in the expected sequence: just after the last event it was given
+			// (not the number of delivered events: a stream may have skipped discarded events — the
+			// lost-position checks deal with that)
 			delivered := 0
 			for _, h := range callsBySlot[slot] {
 				if h.Res.Has && h.Res.Ev != nil && h.Res.Ev.Op != "invalidate" && h.Ret <= r.Clock {
-					delivered++
+					for i, inf := range expBySlot[slot] {
+						if key(inf.ev) == key(h.Res.Ev) && i+1 > delivered {
+							delivered = i + 1
+						}
+					}
 				}
 			}
 			if exp := expBySlot[slot]; delivered < len(exp) && cause == "" {
